@@ -31,7 +31,8 @@ OPS.insert(13, ("remove",))  # job targets only; part of the quick alphabet
 OPS.insert(14, ("job_clear",))
 OPS.insert(15, ("job_reset",))
 OPS.insert(16, ("recreate",))
-OPS.insert(17, ("refused",))  # whole assignment / item assignment of values signac refuses: must raise and change nothing  # job.remove(); job.init() through the same handle (also inside buffered blocks)
+OPS.insert(17, ("refused",))
+OPS.insert(18, ("reset", {}))  # whole assignment of the EMPTY mapping (also as the first thing a buffered block does to a new document)  # whole assignment / item assignment of values signac refuses: must raise and change nothing  # job.remove(); job.init() through the same handle (also inside buffered blocks)
 DOC_OF = {"J1a": "J1", "J1b": "J1", "J2": "J2", "P1": "P", "P2": "P"}
 
 
@@ -106,12 +107,12 @@ def apply_real(owner, op):
         if k == "refused":
             refused = 0
             for attempt in (lambda: setattr(owner, "doc", {"a.b": 1}), lambda: setattr(owner, "document", 5),
-                            lambda: owner.doc.__setitem__("w", {"c.d": 1})):
+                            lambda: owner.doc.__setitem__("w", {"c.d": 1}), lambda: setattr(owner, "doc", {1: "x"})):
                 try:
                     attempt()
                 except Exception:  # noqa
                     refused += 1
-            return None, ("Refused" if refused == 3 else None)
+            return None, ("Refused" if refused == 4 else None)
         doc = owner.doc
         if k == "set":
             doc[op[1]] = json.loads(json.dumps(op[2]))
@@ -428,7 +429,7 @@ def run(ctx):
     quick = ctx.quick
     _CFG["salt"] = ctx.seed
     _CFG["targets"] = ["J1a", "J1b", "P1"] if quick else ["J1a", "J1b", "J2", "P1", "P2"]
-    _CFG["ops"] = OPS[:19] + [("set", "x", None)] if quick else OPS
+    _CFG["ops"] = OPS[:20] + [("set", "x", None)] if quick else OPS
     _CFG["caps"] = [None, 30] if quick else [None, 0, 30, 200]
     depth = 3 if quick else 4 if len(_CFG["targets"]) <= 3 else 3
     # thorough: depth 4 on the small target set, depth 3 on the large one
@@ -440,7 +441,7 @@ def run(ctx):
     reps += [(h, list(_CFG["targets"]), "full-block") for h in st.nonreps]
     if not quick:
         _CFG["targets"] = ["J1a", "J1b", "P1"]
-        _CFG["ops"] = OPS[:18]
+        _CFG["ops"] = OPS[:19]
         st2 = engine_h.explore(ctx, _exec, max_depth=4, chunk=16, collect_all=True)
         engine_h.fill_report(report, st2)
         reps += [(h, list(_CFG["targets"]), "all" if len(h) <= 3 else "two-blocks") for h in st2.reps]
